@@ -972,6 +972,21 @@ def gen_cases(rng, n):
     return cases
 
 
+def literal_nest_cases():
+    """Aggregates over Python literals only (no expression object among the items), in every nesting shape: "an operand
+    that is a Python literal behaves like the corresponding constant"."""
+    T, F = ["L", ["s", "T"]], ["L", ["s", "F"]]
+    I = lambda *xs: ["I"] + list(xs)
+    n = lambda v: ["L", ["s", str(v)]]
+    out = []
+    for t in ("ct", "fo", "fa"):
+        for nest in ([], [T], [F], [T, T], [T, F, T], [I(T), I(F, I(T))], [I(), T], [I(T, T, T)], [F, I(F)]):
+            out.append({"form": [t], "nest": nest})
+    for nest in ([], [n(1)], [n(1), n(2)], [n(1), n(1)], [I(n(0), n(3)), n(3)], [I(n(2)), I(I(n(5)))]):
+        out.append({"form": ["ad"], "nest": nest})
+    return out
+
+
 def table_cases():
     """The forms of the regenerated table as ordinary cases (symbolic operands)."""
     out = []
@@ -1054,7 +1069,7 @@ def correspond(ctx):
         "shape, every element tree, or exception type) vs the Lean model, and the live outcome vs the plain-Python "
         "pointwise oracle under random assignments; non-trivial+distinct = (form, operand kinds/shapes, outcome kind)")
     rng = ctx.rng
-    cases = table_cases() + gen_cases(rng, ctx.n(20000, 200000))
+    cases = table_cases() + literal_nest_cases() + gen_cases(rng, ctx.n(20000, 200000))
     outs = core.Driver().run([case_line(c) for c in cases])
     nt = len(all_forms())
     for idx, (c, m) in enumerate(zip(cases, outs)):
@@ -1086,7 +1101,7 @@ def search(ctx, why):
     import random
     rng = random.Random(f"C12-search-{ctx.seed}")
     found = {}
-    cases = table_cases() + gen_cases(rng, 8000)
+    cases = table_cases() + literal_nest_cases() + gen_cases(rng, 8000)
     for c in cases:
         try:
             r = run_case(c)
